@@ -81,7 +81,8 @@ def check_merge(case):
     for skip in (False, True):
         try:
             if case.get('entry') == 'merged_track':
-                mid = mido.MidiFile(type=1, tracks=tracks)
+                # (a single track may live in a type 0 or a type 1 file: the merge is the same)
+                mid = mido.MidiFile(type=0 if len(tracks) == 1 and len(tracks[0]) % 2 == 0 else 1, tracks=tracks)
                 res = mid.merged_track
             else:
                 cont = case.get('cont', 'list')
